@@ -81,6 +81,11 @@ func main() {
 			evaluations += maxRune
 		}
 	}
+	// synthetic range lists against the script table: the script set of scriptsFromRanges must be exactly the
+	// set of scripts of the runes in the ranges; range ends are placed around every boundary of
+	// language.ScriptRanges (inside a script range, in the unassigned gap behind it, at its first/last rune)
+	nsyn := syntheticScripts(hist)
+	evaluations += nsyn
 	if fonts == 0 {
 		emit(map[string]any{"fail": "no corpus font could be loaded", "kind": "harness"})
 		os.Exit(1)
@@ -212,3 +217,76 @@ func sweepFont(name, kind string, ft *font.Font, ld *ot.Loader) {
 }
 
 func kindOf(ft *font.Font) string { return font.VerifCmapKind(ft.Cmap) }
+
+func checkScripts(ranges [][2]rune, hist map[string]int) {
+	want := map[language.Script]bool{}
+	for _, rg := range ranges {
+		for r := rg[0]; r <= rg[1]; r++ {
+			want[language.LookupScript(r)] = true
+		}
+	}
+	got := fontscan.VerifScriptsFromRanges(ranges)
+	gotSet := map[language.Script]bool{}
+	for _, s := range got {
+		gotSet[s] = true
+	}
+	for s := range want {
+		if !gotSet[s] {
+			hist["synthetic-script-fail"]++
+			emit(map[string]any{"fail": fmt.Sprintf("ranges %v: script %s of a covered rune is missing from scriptsFromRanges", ranges, s), "kind": "script-missing", "input": ranges})
+			return
+		}
+	}
+	for s := range gotSet {
+		if !want[s] {
+			hist["synthetic-script-fail"]++
+			emit(map[string]any{"fail": fmt.Sprintf("ranges %v: scriptsFromRanges holds %s but no covered rune has that script", ranges, s), "kind": "script-spurious", "input": ranges})
+			return
+		}
+	}
+}
+
+func syntheticScripts(hist map[string]int) int {
+	defer func() {
+		if p := recover(); p != nil {
+			emit(map[string]any{"fail": fmt.Sprintf("scriptsFromRanges panic: %v", p), "kind": "panic"})
+		}
+	}()
+	n := 0
+	tab := language.ScriptRanges
+	clampR := func(r rune) rune {
+		if r < 0 {
+			return 0
+		}
+		if r > 0x10FFFF {
+			return 0x10FFFF
+		}
+		return r
+	}
+	for i, sr := range tab {
+		next := rune(0x110000)
+		if i+1 < len(tab) {
+			next = tab[i+1].Start
+		}
+		// single ranges around the end of script range i and the gap [End+1, next-1] behind it
+		starts := []rune{sr.Start, sr.End, sr.End - 1}
+		ends := []rune{sr.End, sr.End + 1, sr.End + 2, next - 1, next, next + 1}
+		for _, a := range starts {
+			for _, b := range ends {
+				a, b := clampR(a), clampR(b)
+				if a <= b && b-a < 5000 {
+					checkScripts([][2]rune{{a, b}}, hist)
+					n++
+				}
+			}
+		}
+		// two ranges: one inside the script range, one in the gap
+		if sr.End+1 <= next-1 {
+			checkScripts([][2]rune{{sr.Start, sr.Start}, {sr.End + 1, sr.End + 1}}, hist)
+			checkScripts([][2]rune{{sr.End, sr.End}, {next - 1, next - 1}}, hist)
+			n += 2
+		}
+	}
+	hist["synthetic-script-ranges"] = n
+	return n
+}
